@@ -55,7 +55,7 @@ FIXED = [
 def run(ctx):
     rng = ctx.rng
     nt = lambda c, i: i.startswith("(")
-    ndocs = ctx.scale(1300, 12000)
+    ndocs = ctx.scale(4000, 30000)
     cases, meta = [], []      # meta: (expected, group, key-if-known-class, docinfo)
     for _ in range(ndocs):
         esc_ok = rng.random() < 0.15
